@@ -485,14 +485,17 @@ def carriers(batches):
     alike = [b for b in batches if b.pool in ALIKE and not b.solo]
     misc = [b for b in batches if not b.solo and (b.pool in MIXED or (b.pool == "str" and len(b.ts) == 1))]
     units = [b for b in batches if b not in alike and b not in misc]
-    if len(alike) > 1:
-        units.append(Carrier("carrier-alike", alike))
-    else:
-        units += alike
-    if len(misc) > 1:
-        units.append(Carrier("carrier-misc", misc))
-    else:
-        units += misc
+    for name, group in (("alike", alike), ("misc", misc)):
+        by_rep = {}
+        for b in group:                      # a template occurs once per repetition: one carrier per repetition
+            m = re.match(r"r\d+", b.bid)
+            by_rep.setdefault(m.group(0) if m else b.bid, []).append(b)
+        for rep, members in sorted(by_rep.items()):
+            tids = [t.tid for b in members for t in b.ts]
+            if len(members) > 1 and len(tids) == len(set(tids)):
+                units.append(Carrier(f"carrier-{name}-{rep}", members))
+            else:
+                units += members
     return units
 
 
